@@ -11,6 +11,14 @@ CHECKS = {
          "Exhaustive enumeration (every int16, int32 range / all int32 in thorough, all float32 bit patterns in thorough, structured int64/float64 boundary sets, every short byte string as varint input) of the real public primitive codecs, each compared byte-for-byte and value-for-value with an independent zig-zag/IEEE reference written from the spec. The domain is finite and small enough to enumerate, so enumeration rather than sampling is the right level.",
          "Trusts the reference varint codec (self-checked at setup); int64/float64 are covered on boundary sets only.", "DESIGN.md §4 C17"),
 }
+CHECKS.update({
+ "C09": (True, "model_checking", "explicit-state BFS over encoder call histories on the real Encoder[T], lock-step reference model, all traces replayed on the implementation",
+         "Explicit-state search over every encode/flush history up to a depth bound (6 quick / 8 thorough; 8/12 for the zero-byte record), for 9 block sizes x 3 codecs, executed on the real Encoder[T]; after every call the complete output is parsed by an independent container parser and compared with a lock-step model (list of pending records). The property quantifies over call histories of a small state machine, which is exactly what bounded explicit-state search decides.",
+         "Record sizes from a 4-element alphabet; depth bound; state canonicalisation argument in the evidence assumptions; reference parser/decompressors trusted.", "DESIGN.md §4 C09"),
+ "C16": (True, "fault_enumeration", "exhaustive enumeration of (call history, failing write index, short-write mode) on the real encoder over a fault-injecting io.Writer",
+         "For every encoder history up to length 4 (6 thorough) and every FileWriter block sequence, every write index at which the io.Writer can fail is enumerated with three short-write modes; the triggering call must return an error wrapping the injected one, and the accepted bytes must be a prefix of the fault-free run re-keyed to the same sync marker. The fault space of a history is finite (1+4 writes per block), so it is enumerated completely.",
+         "Histories stop at the first failure; writer obeys the io.Writer contract.", "DESIGN.md §4 C16"),
+})
 ALL = ["C%02d" % i for i in range(1, 21)]
 
 def main():
